@@ -448,6 +448,10 @@ func genCanonMarkupDoc(r *RNG, k int) markupDoc {
 			so.images = []data.MarkupImage{{URL: u}}
 			sb.WriteString(`<img itemprop="image" src="` + u + `">`)
 		}
+		if r.Intn(5) == 0 {
+			// a nested item without a type: its properties are its own, not the article's
+			sb.WriteString(`<div itemprop="sponsor" itemscope><span itemprop="name">` + m.tok("SOUNT") + `</span><meta itemprop="url" content="http://sponsor.example/` + m.tok("u") + `"><span itemprop="description">` + m.tok("SOUNT") + `</span><span itemprop="headline">` + m.tok("SOUNT") + `</span></div>`)
+		}
 		holder := ""
 		switch r.Intn(4) {
 		case 0:
